@@ -84,3 +84,48 @@ func VerifC10FullSync(h *verifh.H) {
 	h.Assert(sink.fsStart == 1 && sink.fsEnd == 1, "sink fullsync bracket")
 	h.Assert(tr.ended == 1, "transform store context ended once")
 }
+
+// VerifC10Pages: a run over several source pages where the transform, page by
+// page, passes, drops or duplicates what it is given (parallelism 1): every
+// source entity of every page reaches the transform exactly once, in order,
+// and the sink receives exactly what the transform returned, in order — a page
+// whose transform result is empty does not end the run.
+func VerifC10Pages(h *verifh.H) {
+	pages := 1 + h.Choice("pages", h.Param("maxPages", 3))
+	per := h.Param("perPage", 2)
+	full := h.Choice("fullsync", 2) == 1
+	hub := server.VerifNewHub(h)
+	runner := vRunner(hub, 2, 2)
+	all := vEntities(pages * per)
+	var batches [][]*server.Entity
+	var modes []int
+	var want []*server.Entity
+	for k := 0; k < pages; k++ {
+		page := all[k*per : (k+1)*per]
+		batches = append(batches, page)
+		m := h.Choice("mode", 3)
+		modes = append(modes, m)
+		switch m {
+		case 0:
+			want = append(want, page...)
+		case 2:
+			for _, e := range page {
+				want = append(want, e, e)
+			}
+		}
+	}
+	src := &vSource{batches: batches, failAt: -1}
+	tr := &vTransform{par: 1, modes: modes}
+	sink := &vSink{failBatch: -1}
+	spec := PipelineSpec{source: src, sink: sink, transform: tr, batchSize: per}
+	var pl Pipeline = &IncrementalPipeline{spec}
+	if full {
+		pl = &FullSyncPipeline{spec}
+	}
+	j := &job{id: "job-c10p", title: "c10p", pipeline: pl, runner: runner}
+	_, err := pl.sync(j, context.Background())
+	h.Assert(err == nil, "run succeeds")
+	h.Assert(vSameSeq(tr.seen, all), "every entity of every page is transformed exactly once, in order")
+	h.Assert(vSameSeq(sink.delivered, want), "the sink receives exactly what the transform returned, in order")
+	h.Observe("delivered", len(sink.delivered))
+}
